@@ -269,6 +269,16 @@ def run_solver(rng, obs):
     if use_target and rng.random() < 0.4:      # one target per parameter (a sequence of the parameter length, as the detector documents)
         target = [rng.choice([0.0, c, c, round(c + 0.5, 2)]) for c in spec[1]]
     conds = ['at'] if rng.random() < 0.4 else (['as'] if rng.random() < 0.3 else ['at', 'as'])
+    if rng.random() < 0.12:
+        # many parameters, per-parameter targets, and a collapse of just two of them - one with a small index, one with a large one - at the same check
+        # (a set like {3, 9} does not iterate in ascending order): each must be pinned at ITS target
+        dim = rng.choice([9, 10, 12]); kind = rng.choice(['powell', 'nm'])
+        cs = rng.sample([round(-2 + 0.25 * k_, 2) for k_ in range(17)], dim)
+        spec = ['sphere', cs]; raw = K.make_cost(spec)
+        b_ = rng.randrange(8, dim); a_ = rng.randrange((b_ % 8) + 1, 8)
+        target = [cs[i] if i in (a_, b_) else cs[i] + 7.0 for i in range(dim)]
+        conds = ['at']; tol = 1e-2; gens = rng.choice([2, 3])
+        obs.event('wide_per_parameter_targets')
     obs.desc = {'solver': kind, 'dim': dim, 'cost': spec, 'window': gens, 'tol': tol, 'target': target, 'collapse': conds}
     # the ordinary stop: far away, or likely to fire at the very step a collapse is first reported (same window, energy tolerance of the
     # same order) - then the solver stops and must not half-apply that collapse
